@@ -181,9 +181,10 @@ func (d *D) Forget(name string) {
 
 // G describes one goroutine of a snapshot.
 type G struct {
-	ID    string
-	State string
-	Stack string // function names, innermost first, one per line
+	ID      string
+	State   string
+	Stack   string // function names, innermost first, one per line
+	Creator string // id of the goroutine that started this one ("" if unknown)
 }
 
 var hdrRe = regexp.MustCompile(`^goroutine (\d+) \[([^\],]+)(?:, [^\]]*)?\]:$`)
@@ -212,7 +213,13 @@ func Snapshot() []G {
 		g := G{ID: m[1], State: m[2]}
 		var fns []string
 		for _, l := range lines[1:] {
-			if strings.HasPrefix(l, "\t") || strings.HasPrefix(l, "created by") {
+			if strings.HasPrefix(l, "created by") {
+				if i := strings.LastIndex(l, " in goroutine "); i >= 0 {
+					g.Creator = strings.TrimSpace(l[i+len(" in goroutine "):])
+				}
+				continue
+			}
+			if strings.HasPrefix(l, "\t") {
 				continue
 			}
 			if i := strings.LastIndex(l, "("); i > 0 {
@@ -329,6 +336,55 @@ func (d *D) Census(gs []G) []string {
 	}
 	sort.Strings(out)
 	return out
+}
+
+// CensusBy is Census restricted to goroutines whose chain of creators leads to the goroutine `root`
+// (own = true) or does not (own = false).  A manager's goroutines are started by whoever created the
+// manager, so this separates the two endpoints of a connection living in one process.
+func (d *D) CensusBy(gs []G, root string, own bool) []string {
+	parent := map[string]string{}
+	for _, g := range gs {
+		parent[g.ID] = g.Creator
+	}
+	descends := func(id string) bool {
+		for i := 0; i < 50 && id != ""; i++ {
+			if id == root {
+				return true
+			}
+			id = parent[id]
+		}
+		return false
+	}
+	var out []string
+	for _, g := range gs {
+		if g.ID == d.self || ignorable(g) || descends(g.ID) != own || g.ID == root {
+			continue
+		}
+		for _, fn := range strings.Split(g.Stack, "\n") {
+			if strings.Contains(fn, "storj.io/drpc/") {
+				fn = fn[strings.Index(fn, "storj.io/drpc/")+len("storj.io/drpc/"):]
+				out = append(out, fn+"@"+g.State)
+				break
+			}
+		}
+	}
+	sort.Strings(out)
+	return out
+}
+
+// Self returns the goroutine id of the director.
+func (d *D) Self() string { return d.self }
+
+// OpGoroutine returns the goroutine id an operation runs on ("" once it has returned).
+func (d *D) OpGoroutine(name string) string {
+	d.mu.Lock()
+	defer d.mu.Unlock()
+	for id, n := range d.goOp {
+		if n == name {
+			return id
+		}
+	}
+	return ""
 }
 
 // ---------------------------------------------------------------- parkable writer
